@@ -1,7 +1,7 @@
 P = {
-    "gens": ["C11tcpcl", "C04tcpclmru"],
+    "gens": ["C11tcpcl", "C11client", "C04tcpclmru"],
     "theorems": ["C11_segments", "C11_segments_divisor", "C11_receiver", "C11_success_sound",
-                 "C11_failure_reported", "C11_close_reported"],
+                 "C11_failure_reported", "C11_close_reported", "C11_session_sender", "C11_session_reports"],
     "rule": "xfer: real OutgoingTransfer -> IncomingTransfer for every byte-stream length L=1..64 (thorough 200) and every "
             "segment size m=1..L+2 (all divisor cases), the same for real bundles of consecutive payload sizes, and "
             "lengths around 1 MiB with m around 1 MiB; mgr: two real TransferManagers joined by FIFO queues with 1-4 "
@@ -9,7 +9,17 @@ P = {
             "1 MiB; peer: one TransferManager against a scripted peer that acknowledges k segments and then stops "
             "acknowledging / refuses / closes the session / stops reading, for every k (real 10 s timeout, cases run "
             "concurrently); mru (C04 sender clause): NextSegment in a child process for peer MRUs 0, 1, 2^20+-, 2^31..2^64-1. "
-            "distinct = distinct case bodies",
+            "client (session level, real tcpclv4.Client over net.Pipe / loopback TCP, as active and as passive entity): ctrace = Client "
+            "against a scripted raw peer that announces Segment MRU 1, 2, 3, 7, 10 .. 65535, every divisor of L, L-1, L, L+1, 1 MiB+-1, "
+            "2^32, 2^63-1, 2^64-1 in SESS_INIT and records every XFER_SEGMENT (1..11 bundles per session, 1..8 sending goroutines): per "
+            "transfer id no segment above the announced MRU, concatenation = a bundle sent, START/END exactly first/last, ids pairwise "
+            "distinct, Send ok => complete at the peer; the same trace check for one TransferManager whose 8/12/16 Send calls are released "
+            "by a spin barrier (6 sessions x 250 rounds); crecv = scripted peer sends 1..12 transfers with its own segmentation (1..1000 "
+            "byte segments, up to several hundred pipelined), sequential / interleaved / last transfer left incomplete, in phases; the "
+            "consumer of Client.Channel() only holds the reports and compares all bundles held so far with the bundles sent at every "
+            "quiescent point (all acknowledged, all reports taken) and after Close: none missing, none extra, none changed later; cpair = "
+            "two real Clients, 1..4 phases of up to 12 bundles per direction sent by 1..8 goroutines per side, same comparison on both "
+            "sides. distinct = distinct case bodies",
     "assumptions": [
         "acknowledgements seen by Send are lengths an honest receiver of that transfer produces (honest_event); a peer that "
         "acknowledges length 0 before the sender finished makes Send return success early (Example tcpcl_send_ack_zero_hole)",
@@ -21,13 +31,19 @@ P = {
         "bundle CBOR encoding/decoding (MarshalCbor / ToBundle) is outside this model: the receiver model hands up the bytes",
         "TransferManager.handle: only the XFER_SEGMENT branch is modelled; its error exits (ack/refusal for an unknown transfer, "
         "unexpected message type, unparsable finished transfer) and the blocking of unbuffered channels are not",
-        "TCP / WebSocket framing (MessageSwitch, gorilla/websocket) not modelled; concurrency over real sockets is exercised only "
-        "by the package's own TestImplNetwork",
+        "MessageSwitch / StageHandler (framing, contact header and SESS_INIT exchange, keepalive) are not modelled: the session-level "
+        "model is 'segment MTU = the peer's announced Segment MRU, ids by atomic increment, one report with its own copy per bundle'; "
+        "the real Client is run over net.Pipe and loopback TCP against a scripted raw peer and against another Client; WebSocket "
+        "(gorilla/websocket) is exercised only by the package's own TestImplNetwork",
+        "transfer id allocation is modelled as one indivisible step (atomic.AddUint64); the uint64 wrap-around after 2^64 transfers "
+        "of a session is not modelled; the literal/operator shape of Client.Start, Client.handle and TransferManager.Send is pinned "
+        "by ConstsOkTcpcl",
     ],
     "level_text": "Theorems over the Gallina model of OutgoingTransfer.NextSegment, IncomingTransfer, the receiving side of "
                   "TransferManager and TransferManager.Send for all bundle lengths, all segment sizes >= 1, all interleavings of "
                   "transfers with distinct ids and all event orders of Send; the model is run against the real code on exhaustive "
-                  "(L, m) sweeps, concurrent TransferManager pairs and scripted faulty peers.",
+                  "(L, m) sweeps, concurrent TransferManager pairs, scripted faulty peers and whole sessions of the real Client against a scripted raw "
+                  "peer (announced Segment MRU, bursts, late consumer) and against another Client.",
     "level_note": "partial for real sockets: timeouts and scheduling are modelled as events; the tie to Go is the differential "
                   "check. Go runtime/stdlib (io.Pipe, bufio, channels) modelled not verified.",
     "timeout_quick": 600,
